@@ -18,9 +18,9 @@ def check(run):
         clause = extra[0] if extra else "?"
         per_clause[clause] += 1
         hb = dp.header_bits(ev["hex"])
-        sig = {"clause": clause, "df": hb["df"], "tc": hb["tc"], "subtype": hb["subtype"],
-               "out": ev["out"], "fb_out": ev["fb_out"], "len": ev["len"]}
+        sig = {"clause": clause, "df": hb["df"], "out": ev["out"], "fb_out": ev["fb_out"], "at": ev.get("at", "")}
         run.report(sig, {"frame_hex": ev["hex"], "shape": ev["cls"], "index": ev["i"], "recorded": ev,
+                         "tc": hb["tc"], "subtype": hb["subtype"], "panic": ev.get("ptxt", ""),
                          "spec": "Trace_Decode.tla: outcome in {ok, err}; ok => length = LenFor(DF); "
                                  "both calls equal; Display/Debug return",
                          "reproduce": f"{res['exe']} probe {ev['hex']}"})
